@@ -27,7 +27,7 @@ def rec_c14_same_rounding(f):
 PLANS["C14"] = dict(
     suites=[Suite("lerp", 6000, 400000), Suite("lerp8", 0, 1, chunks_thorough=1)],
     floors={"quick": {"op:lerp": 3000, "panic:int-range": 5, "op:vec": 100, "op:lerp64": 100}},
-    kernel_modules=["MinaKernel.C14Table"],
+    kernel_modules=["MinaKernel"],
     recognisers={"c14_same_rounding": rec_c14_same_rounding},
     assumptions=["values exactly representable in f32 (the property's own hypothesis); Quat/DQuat delegate to glam's own lerp and are not modelled"],
 )
@@ -379,12 +379,18 @@ def extra_c07(prop, tier, seed, profiles):
     ops, impl = P.read_lines(path), P.read_lines(out)
     fails, checked = [], 0
     exact, prev = False, None
-    hist = {"ended-seen": 0, "rest-checked": 0}
+    ended_run = 0       # consecutive `adv` outputs (since the last state change) that reported ended
+    first_ended_ns = None
+    hist = {"ended-seen": 0, "rest-checked": 0, "rest-checked-inexact": 0}
     for L, (op, o) in enumerate(zip(ops, impl)):
         w = op.split(" ")
-        if w[0] == "reset": exact, prev = False, None
+        if w[0] == "reset": exact, prev, ended_run = False, None, 0
         elif op == "# exactcfg": exact = True
-        elif w[0] in ("anim", "set"): prev = None if o.startswith(("panic", "bad")) else (o, L)
+        elif w[0] in ("anim", "set"):
+            if w[0] == "set" and prev is not None and o == prev[0]:
+                continue                      # set_state to the current state: nothing happened
+            prev = None if o.startswith(("panic", "bad")) else (o, L)
+            ended_run = 0
         elif w[0] == "adv" and w[1] == "0":
             if o.startswith(("panic", "bad")): prev = None; continue
             vals, meta = o.split(" | ")
@@ -401,6 +407,18 @@ def extra_c07(prop, tier, seed, profiles):
                         hist["rest-checked"] += 1
                         if vals != pv:
                             fails.append(dict(line=L, directive="relational values rest once ended", op=op, got=o, want=prev[0], ops=P.block_of(ops, L)))
+                    else:
+                        # timings whose sums are inexact in binary32: `t >= duration()` and the time scale's own end
+                        # test can disagree at the first ended instant (finding F-C07b); from the second on, values rest
+                        hist["rest-checked-inexact"] += 1
+                        if vals != pv:
+                            f = dict(line=L, directive="relational values rest once ended", op=op, got=o, want=prev[0], ops=P.block_of(ops, L))
+                            # the observation that was not yet at rest lies within 4 ulps (binary32) of the first ended time
+                            pns = int(pm.split(" ")[2])
+                            if first_ended_ns is not None and pns <= first_ended_ns * (1 + 2.0 ** -21) + 1: f["inexact_timing"] = True
+                            fails.append(f)
+            if ended and ended_run == 0: first_ended_ns = int(meta.split(" ")[2])
+            ended_run = ended_run + 1 if ended else 0
             prev = (o, L)
     return dict(checked=checked, fails=fails, evaluations=checked, hist=hist)
 
@@ -414,6 +432,7 @@ PLANS["C06"] = dict(suites=[Suite("anim6", 250, 15000), Suite("anim", 200, 8000)
                     assumptions=["StableWrites: the set of slots a timeline writes does not depend on time (true of built timelines)"])
 PLANS["C07"] = dict(suites=[Suite("anim", 500, 30000), Suite("merged", 100, 4000)], floors=ANIM_FLOORS, extra=extra_c07,
                     assumptions=["values-rest is stated for every component strictly past its end; at the end instant itself the position already equals the terminal one (C02.at_total_position)"])
+PLANS["C07"]["recognisers"] = {"c07b_inexact_timing": lambda f: bool(f.get("inexact_timing"))}
 PLANS["C07"]["floors"] = {"quick": dict(ANIM_FLOORS["quick"], **{"ended-seen": 200, "rest-checked": 50})}
 
 
@@ -558,12 +577,21 @@ def extra_bevy(prop, tier, seed, profiles):
     os.makedirs(os.path.dirname(path), exist_ok=True)
     bbin = P.harness_bin("debug", P.BEVY, "bevy_harness")
     P.gen_ops("bevy", seed + (18 if prop == "C18" else 19), n, path, gen_bin=bbin)
+    # corpus witnesses first (the relational rules below run on them too)
+    import glob as _glob
+    pre = []
+    for cp in sorted(_glob.glob(os.path.join(P.VERIF, "corpus", prop, "*.ops"))):
+        pre += ["reset"] + [l for l in P.read_lines(cp) if l.strip()]
+    if pre:
+        body = P.read_lines(path)
+        open(path, "w").write("\n".join(pre + ["reset"] + body))
     out = path[:-4] + ".impl"
     P.run_stream(bbin, ["run"], path, out)
     ops, impl = P.read_lines(path), P.read_lines(out)
     fails, checked = [], 0
     hist = {"frames": 0, "ended-frames": 0, "key-changes-by-chain": 0, "setkey-switches": 0, "two-animator-apps": 0}
     prev, cfg, dirty, chain_pending, stale, key_set = None, None, False, None, False, False
+    blk_dyadic, blk_mag, blk_tls = True, 1.0, {}
     frame_key, other_ext, nframes = None, False, 0     # selector key at the end of the last frame; non-setkey external op since
     moved_in_frame = False                             # the chain moved the key during the last frame (select may see it only in the next one)
     hist.update({"restart-checked": 0, "stop-checked": 0, "reassign-checked": 0})
@@ -571,7 +599,19 @@ def extra_bevy(prop, tier, seed, profiles):
         fails.append(dict(line=L, directive=f"relational {what}", op=ops[L], got=got, want=want, ops=P.block_of(ops, L)))
     for L, (op, o) in enumerate(zip(ops, impl)):
         w = op.split(" ")
-        if w[0] == "reset": prev = None
+        if w[0] == "reset": prev, blk_dyadic, blk_mag, blk_tls = None, True, 1.0, {}
+        if w[0] == "tl":
+            blk_tls[w[1]] = w
+            # timings that are small multiples of 2^-10 add and subtract exactly in binary32; elsewhere `position >=
+            # delay + duration` and `position - delay > duration` can disagree by one rounding (numerical scope, DESIGN §10)
+            for tok in (w[3], w[4]):
+                if tok != "-":
+                    x = f32(tok)
+                    if not (x == x and abs(x) < 1024 and (x * 1024) == int(x * 1024)): blk_dyadic = False
+            for tok in w[9:]:
+                if tok.isdigit():
+                    x = abs(f32(tok))
+                    if x == x and x != float("inf"): blk_mag = max(blk_mag, x)
         if w[0] == "terminal" and prop == "C18" and prev is not None and not o.startswith(("panic", "bad")):
             # Ended => the component holds the terminal values of the timeline that ended
             if prev["state"] == 3 and not stale:
@@ -579,6 +619,12 @@ def extra_bevy(prop, tier, seed, profiles):
                 hist["terminal-checked"] = hist.get("terminal-checked", 0) + 1
                 if tuple(o.split(" ")) != prev["comp"]:
                     fail(L, "whenever Ended, the target holds the timeline's terminal values", " ".join(prev["comp"]), o)
+                    # F-C18b: with timings whose sums are inexact in binary32 the animator decides Ended on
+                    # `position >= delay + total` while the time scale compares `position - delay > total`
+                    # ... which can only matter when the position at which Ended was decided lies within a few ulps
+                    # of the reported duration of that timeline
+                    tlw = blk_tls.get(w[1])
+                    if not blk_dyadic and tlw is not None and near_duration(tlw, prev["pos"]): fails[-1]["inexact_timing"] = True
             continue
         if w[0] not in ("bapp", "frame", "setkey", "enable", "breset", "settl", "setpos"): continue
         if o.startswith(("panic", "bad")): prev = None; continue
@@ -668,6 +714,28 @@ def extra_bevy(prop, tier, seed, profiles):
     return dict(checked=checked, fails=fails, evaluations=checked, hist=hist)
 
 
+def near_duration(tlw, pos_ns):
+    """is the position (ns) within 4 ulps of the binary32 total duration delay + duration*(n+1) of `tl` line tlw?"""
+    from fractions import Fraction
+    dur = f32(tlw[3]) if tlw[3] != "-" else 1.0
+    delay = f32(tlw[4]) if tlw[4] != "-" else 0.0
+    rep = tlw[5]
+    if rep in ("i",): return False
+    n = 0 if rep in ("-", "n") else int(rep)
+    if not (dur == dur and delay == delay): return False
+    total = float(f32_round(Fraction(dur) * (n + 1)))
+    D = float(f32_round(Fraction(total) + Fraction(delay)))
+    pos = float(f32_round(Fraction(pos_ns, 10 ** 9)))
+    ulp = max(abs(D), 1e-30) * 2.0 ** -23
+    return abs(pos - D) <= 4 * ulp
+
+
+def rec_c18b_inexact_timing(f):
+    """F-C18b: Ended reported while the component is not at the terminal values, in a scenario whose timings do
+    not add exactly in binary32 (input class)."""
+    return bool(f.get("inexact_timing"))
+
+
 def rec_c19_other_animator(f):
     """F-C19: the chain fired on the Ended event of another animator (different component type) on the
     same entity — AnimationStateChanged carries only the entity."""
@@ -676,6 +744,7 @@ def rec_c19_other_animator(f):
 
 BEVY_FLOORS = {"quick": {"op:frame": 3000, "op:bapp": 150, "frames": 2000}}
 PLANS["C18"] = dict(suites=[Suite("bevy", 300, 15000, crate="bevy")], floors={"quick": dict(BEVY_FLOORS["quick"], **{"ended-frames": 200})}, extra=extra_bevy,
+                    recognisers={"c18b_inexact_timing": rec_c18b_inexact_timing},
                     assumptions=["bevy's scheduler, change detection and event buffering are abstracted (one entity; events of frame N readable in frame N+1; the order of systems bevy leaves unordered is a parameter and the implementation must follow one order consistently) and exercised by the real App with a hand-driven Time",
                                  "the timeline in place when Ended was reached (set_timeline while Ended does not restart, as documented)"])
 PLANS["C19"] = dict(suites=[Suite("bevy", 300, 15000, crate="bevy")], floors={"quick": dict(BEVY_FLOORS["quick"], **{"key-changes-by-chain": 20, "two-animator-apps": 30})}, extra=extra_bevy,
